@@ -42,7 +42,7 @@ PROPS["C19"] = {
                   "numeric/boolean values are ignored. Package main does not type-check on the pinned tree and is analysed with "
                   "partial type information; pkg/... and third-party code is not analysed (summaries). The dynamic run is testing.",
     "rule": "each case = one real run path (configuration echo | CmdSync standalone / cluster source / cluster target / resume | CmdRestore | CmdRump | CmdDump | "
-            "CmdDecode) x log level x peer behaviour (co-operative | rejects AUTH | mute | target down | source down) x two distinct 24-byte sentinels (plain, with "
+            "CmdDecode | source re-discovery by the slot supervisor over a shard with two masters, twice) x log level x peer behaviour (co-operative | rejects AUTH | mute | target down | source down) x two distinct 24-byte sentinels (plain, with "
             "format verbs, quotes, JSON/HTML-special characters), run in a child process; all log output (file:line per statement), the "
             "/conf and /metric documents and GetDetailedInfo are searched for the sentinels raw, JSON-/Go-quoted, URL-escaped, base64, "
             "hex and as a %v byte list. non-trivial = the child printed at least 3 lines; distinct by case text",
